@@ -22,6 +22,11 @@ def Kind.all : List Kind :=
 theorem State.mem_all (s : State) : s ∈ State.all := by cases s <;> decide
 theorem Op.mem_all (o : Op) : o ∈ Op.all := by cases o <;> decide
 
+theorem State.forall_of_all {p : State → Prop} (h : ∀ s ∈ State.all, p s) : ∀ s, p s :=
+  fun s => h s (State.mem_all s)
+theorem Op.forall_of_all {p : Op → Prop} (h : ∀ o ∈ Op.all, p o) : ∀ o, p o :=
+  fun o => h o (Op.mem_all o)
+
 theorem Kind.mem_all (k : Kind) : k ∈ Kind.all := by
   unfold Kind.all
   cases k with
@@ -64,6 +69,18 @@ def Kind.build (k : Kind) (f : Frame) : Msg :=
 @[simp] theorem Kind.kind_build (k : Kind) (f : Frame) : (k.build f).kind = k := by
   cases k <;> rfl
 
+/-- The frame-shaped carrier of a message's variable fields: address / offset / count, payload, or the
+    wrapped frame itself. -/
+def Msg.fields : Msg → Frame
+  | .sendData off d => ⟨off, 0, d⟩
+  | .chunksSent n => ⟨n, 0, []⟩
+  | .hello a | .queryState a | .goodbye a | .pixelsComplete a => ⟨a, 0, []⟩
+  | .reportState a _ | .requestOp a _ | .ackOp a _ => ⟨a, 0, []⟩
+  | .unknown f => f
+
+@[simp] theorem Msg.build_fields (m : Msg) : m.kind.build m.fields = m := by
+  cases m <;> rfl
+
 /-- The kind `toMsg` assigns depends on the type and the data only. -/
 def kindOf (ty : UInt8) (data : List UInt8) : Kind := (toMsg ⟨0, ty, data⟩).kind
 
@@ -86,6 +103,18 @@ theorem kindOf_long (ty x y : UInt8) (r : List UInt8) : kindOf ty (x :: y :: r) 
   unfold kindOf toMsg
   simp only
   split <;> rfl
+
+/-- The message types the protocol table mentions; any other type is `unknown` unless empty-typed
+    data chunk rules apply (type 0 is in the list). -/
+def tableTypes : List UInt8 := [0, 1, 2, 3, 4, 5, 6]
+
+/-- One data byte with a type outside the table: unknown. -/
+theorem kindOf_other (ty b : UInt8) (h : ty ∉ tableTypes) : kindOf ty [b] = .unknown := by
+  simp only [tableTypes, List.mem_cons, List.not_mem_nil, or_false, not_or] at h
+  obtain ⟨h0, _, h2, h3, h4, h5, h6⟩ := h
+  unfold kindOf toMsg
+  simp only [h0, h2, h3, h4, h5, h6, ↓reduceIte]
+  rfl
 
 /-- How `Frame::from(Message)` lays out a message of a given kind. -/
 inductive EncShape where
